@@ -334,3 +334,19 @@ m("CTL-C18-poll-match", "C18", "", "shuttle-engine/src/future/batch_semaphore.rs
   "        if self.waiter.has_permits.load(Ordering::SeqCst) {\n            assert!(!self.waiter.is_queued.load(Ordering::SeqCst));\n            self.completed = true;",
   "        let granted = self.waiter.has_permits.load(Ordering::SeqCst);\n        if granted {\n            assert!(!self.waiter.is_queued.load(Ordering::SeqCst));\n            self.completed = true;",
   "has_permits read into a named local", silent=True)
+m("CTL-C02-switch-via-helper", "C02", "", "shuttle-std/src/sync/condvar.rs",
+  "    pub fn notify_one(&self) {\n        thread::switch();\n",
+  "    pub fn notify_one(&self) {\n        fn choice_point() {\n            thread::switch();\n        }\n        choice_point();\n",
+  "the choice point is reached through a local helper", silent=True)
+m("CTL-C10-choose-via-binding", "C10", "", "shuttle-schedulers/src/random.rs",
+  "        Some(runnable.choose(&mut self.rng).unwrap().id())",
+  "        let rng = &mut self.rng;\n        let picked = runnable.choose(rng);\n        Some(picked.unwrap().id())",
+  "choose through local bindings", silent=True)
+m("CTL-C19-release-after-binding", "C19", "", "wrappers/tokio/impls/tokio/inner/src/sync/mpsc.rs",
+  "                if self.chan.is_bounded() {\n                    self.chan.send_semaphore.release(1);\n                }\n                Ok(message)",
+  "                let bounded = self.chan.is_bounded();\n                if bounded {\n                    let sem = &self.chan.send_semaphore;\n                    sem.release(1);\n                }\n                Ok(message)",
+  "slot returned through local bindings", silent=True)
+m("CTL-C15-condvar-clock-once", "C15", "", "shuttle-std/src/sync/condvar.rs",
+  "        let epoch = state.next_epoch;\n        for (tid, status) in state.waiters.iter_mut() {\n            assert_ne!(*tid, me);\n\n            let clock = current::clock();",
+  "        let epoch = state.next_epoch;\n        let now = current::clock();\n        for (tid, status) in state.waiters.iter_mut() {\n            assert_ne!(*tid, me);\n\n            let clock = now.clone();",
+  "notifier clock read once before the loop", silent=True)
